@@ -1,22 +1,20 @@
-\* generated by mkaggcfg.py - C13: crash points, DB loss, restarts (repaired reconciliation)
+\* generated by mkaggcfg.py - edge cover, aggchain-prover flow with crashes / DB loss
 CONSTANTS
-  MaxBlocks = 3
+  MaxBlocks = 2
   MaxBridges = 1
   MaxCerts = 3
   MaxSteps = 40
   RetryImm = TRUE
   MaxCertBlocks = 0
-  CallFailures = TRUE
+  CallFailures = FALSE
   Crashes = {"before_submit", "after_submit", "after_store"}
   StoreFaults = FALSE
   LoseDB = TRUE
   HeaderHasPrev = TRUE
   FixedF4 = "v2"
-  Mode = "pp"
+  Mode = "fep"
 INIT Init
 NEXT Next
 VIEW view
-INVARIANT C02
-INVARIANT F4Free
-INVARIANT NeverRefuses
+ACTION_CONSTRAINT Dump
 CHECK_DEADLOCK FALSE
